@@ -87,7 +87,9 @@ CHECKS = {
         "request returned; solve_all reports the texts of answers that next_solution returned and after which the flag still "
         "read false - an answer returned by a request during which the flag was raised is dropped -, the list is complete "
         "when the search ended with the flag still false, and the timeout message follows exactly when the final read is true "
-        "(always after a cut-short search; the flag stays raised until the next query starts). Tied to the code with the "
+        "(always after a cut-short search; the flag stays raised until the next query starts); and when no stop is pending the "
+        "search never raises the flag itself, solve_all reports no timeout and its list is exactly the formatted answers of "
+        "the reference search, in order (C23_no_stop_pending, via the refinement theorem). Tied to the code with the "
         "hook that raises the flag at the n-th read, for every n < 40 on fixed programs and random n on random ones; oracle: "
         "the reported texts are a prefix of the reference answers, complete without message, never a message without a raise.",
    ref="7/C23",
